@@ -10,8 +10,8 @@ KIND = lambda inp: ('rfc_kind(%s.state.value, %s, %s.client, %s.headers_sent, %s
                     '(-1 if %s.stream_closed_by is None else %s.stream_closed_by.value))'
                     % (SM, inp, SM, SM, SM, SM, SM, SM, SM))
 
-QUIET = [('nothing-emitted', 'len(g_out) == len(old(g_out))', ['C29', 'C19', 'C03']),
-         ('buffer-unchanged', 'self._data_to_send == old(self._data_to_send)', ['C29', 'C19', 'C03']),
+QUIET = [('nothing-emitted', 'len(g_out) == len(old(g_out))', ['C29', 'C19']),
+         ('buffer-unchanged', 'self._data_to_send == old(self._data_to_send)', ['C29', 'C19']),
          ('GI', 'GI(self)')]
 UNKNOWN_STREAM = [
     dict(exc='StreamClosedError', label='StreamClosedError(closed)', props=['C29', 'C06'],
@@ -54,6 +54,7 @@ contract(CONN + '.send_data', props=['C03', 'C02', 'C29', 'C19'],
              when='not conn_accepts(cst, CI_SEND_DATA) or (exists and (%s != K_OK or end_stream))' % KIND('S_DATA')),
     ],
     on_raise=QUIET + [
+        ('one-byte-more-emits-nothing', 'len(g_out) == len(old(g_out)) and self._data_to_send == old(self._data_to_send)', ['C03']),
         ('windows-unchanged', 'self.outbound_flow_control_window == old(self.outbound_flow_control_window) and all(self.streams[k].outbound_flow_control_window == old(self.streams[k].outbound_flow_control_window) for k in self.streams)', ['C03']),
         ('raising-call-keeps-stream-state', 'implies(exists, %s.state == old(%s.state))' % (SM, SM), ['C06', 'C10']),
     ],
